@@ -93,16 +93,25 @@ func limitChunkMatches(file *zoekt.FileMatch, limit int) int {
 			// lines from it, where N is the difference between the line number
 			// of the end of the old last Range and that of the new last Range.
 			// This calculation is correct in the presence of both context lines
-			// and multiline Ranges, taking into account that Content never has
-			// a trailing newline.
+			// and multiline Ranges. Content consists of whole lines: it ends
+			// with the newline of its last line, unless that line is the last
+			// of a file without a trailing newline. That newline terminates a
+			// line rather than separating two, so it is not counted, and the
+			// truncated Content keeps the newline of its own last line.
 			n := cm.Ranges[len(cm.Ranges)-1].End.LineNumber - cm.Ranges[limit-1].End.LineNumber
 			if n > 0 {
-				for b := len(cm.Content) - 1; b >= 0; b-- {
+				last := len(cm.Content) - 1
+				keep := 0
+				if last >= 0 && cm.Content[last] == '\n' {
+					last--
+					keep = 1
+				}
+				for b := last; b >= 0; b-- {
 					if cm.Content[b] == '\n' {
 						n -= 1
 					}
 					if n == 0 {
-						cm.Content = cm.Content[:b]
+						cm.Content = cm.Content[:b+keep]
 						break
 					}
 				}
